@@ -439,7 +439,7 @@ macro_rules! kind_reversed {
                     }
                 }
             }
-            St { nodes }
+            St { nodes, twins: vec![] }
         }
     };
     (un) => {
@@ -461,7 +461,7 @@ macro_rules! kind_reversed {
             n.bfs().target(&t).search_path().map(|p| p.len() - 1)
         }
         pub fn reversed(st: &St, _out_from_in: bool) -> St {
-            St { nodes: st.nodes.clone() }
+            St { nodes: st.nodes.clone(), twins: vec![] }
         }
     };
 }
